@@ -441,3 +441,5 @@ MUTANTS = [
         with self.lock:""", """    def _bind_by_none(self, socket):
         if True:""", 'C17-R1'),
 ]
+
+EXPLANATION += ' Round 5: a bind inserts the socket only into the access point it has just created (dominance).'
